@@ -506,10 +506,10 @@ def gen_ignore_programs(ctx):
     # 3. pairs of safe templates in one function (adjacent diagnostics: comment above comment situations)
     pairs = list(itertools.product(range(len(T_SAFE)), repeat=2))
     rng.shuffle(pairs)
-    for i, j in pairs[:ctx.n(12, 200)]:
+    for i, j in pairs[:ctx.n(8, 200)]:
         progs.append(("pair", build_program([], [[T_SAFE[i][1], T_SAFE[j][1]]], []), True))
     # 4. seeded random larger programs
-    for _ in range(ctx.n(36, 1000)):
+    for _ in range(ctx.n(28, 1000)):
         r = rng.random()
         pool = T_SAFE + T_NEUTRAL
         special = None
@@ -621,7 +621,7 @@ def gen_fix_programs(ctx):
     # first line / last line of the file
     progs.append(("first-line", ["x0 = \"%s\" % __name__"] + build_fix_program([F_OK[0][1]])))
     progs.append(("last-line", build_fix_program([F_OK[8][1]], tail=["def t9(a, b, c): return \"%s\" % a"])))
-    for _ in range(ctx.n(18, 600)):
+    for _ in range(ctx.n(14, 600)):
         r = rng.random()
         pool = F_OK if r < 0.7 else allf
         progs.append(("random", build_fix_program([rng.choice(pool)[1] for _ in range(rng.randint(2, 4))])))
@@ -1587,17 +1587,29 @@ def run_corpus_item(ctx, item, with_model):
 
 def _run(ctx, with_model):
     cap = ctx.n(ROUND_CAP_QUICK, ROUND_CAP)
+    # corpus first, batched (one driver start per stream instead of one per item)
+    c_ign, c_fix = [], []
     for item in corpus():
-        run_corpus_item(ctx, item, with_model)
+        if "program" in item and item.get("mode", "ignores") == "ignores":
+            src = "\n".join(item["program"]) + ("\n" if item.get("final_newline", True) else "")
+            c_ign.append({"case": {"program": item["program"], "final_newline": item.get("final_newline", True)},
+                          "src": src, "cap": item.get("cap", ROUND_CAP_QUICK)})
+        elif "program" in item and item.get("mode") == "fixes":
+            prof = item.get("profile", "fix")
+            c_fix += fix_case(ctx, {"program": item["program"], "mode": "fixes", "profile": prof}, item["program"], with_model, 8, profile=prof)
+        else:
+            run_corpus_item(ctx, item, with_model)
+    ignores_cases(ctx, c_ign, with_model)
+    flush_fixes(ctx, c_fix, with_model)
     # ---- add-ignores
     progs = gen_ignore_programs(ctx)
     items = []
     for tag, lines, nl in progs:
         src = "\n".join(lines) + ("\n" if nl else "")
         ctx.tag("gen_" + tag.split(":")[0].replace("-", "_"))
-        items.append({"case": {"program": lines, "final_newline": nl}, "src": src, "cap": cap, "removal": ctx.n(4, 12)})
-    for i in range(0, len(items), 40):
-        ignores_cases(ctx, items[i:i + 40], with_model)
+        items.append({"case": {"program": lines, "final_newline": nl}, "src": src, "cap": cap, "removal": ctx.n(3, 12)})
+    for i in range(0, len(items), 90):
+        ignores_cases(ctx, items[i:i + 90], with_model)
     # ---- real fixes
     fprogs = gen_fix_programs(ctx)
     pending = []
